@@ -149,7 +149,8 @@ void replay_foreign_workloads(Ctx & c)
     {
     std::string id = q->id;
     if(id == "C07" || id == "C08") continue;
-    Ctx d; d.shard = c.shard; d.nshards = c.nshards; d.thorough = c.thorough; d.seed = c.seed; d.scale = c.scale * 0.2; d.prop = q; d.nontrivial_cap = 1;
+    // always the quick-tier workload of the other property (its thorough tier contains exhaustive 32-bit sweeps): at 1/5 in quick, in full in thorough
+    Ctx d; d.shard = c.shard; d.nshards = c.nshards; d.thorough = false; d.seed = c.seed; d.scale = c.scale * (c.thorough ? 1.0 : 0.2); d.prop = q; d.nontrivial_cap = 1;
     d.rng.seed(c.seed, 5000 + (uint64_t)c.shard + 97 * strhash(q->id) % 100003);
     d.call_hook = diff_hook; d.suppress_foreign = true;
     q->run(d);
